@@ -1123,7 +1123,17 @@ static size_t ares_calc_query_timeout(const ares_query_t   *query,
    * retry from the last retry */
   rounds = (query->try_count / num_servers);
   if (rounds > 0) {
-    timeplus <<= rounds;
+    /* Saturate rather than shift by the width of the type or more (undefined
+     * behaviour) or let the doubled value wrap around.  Timeouts are
+     * configured as int milliseconds, so nothing above INT_MAX is meaningful
+     * here. */
+    const size_t limit = (size_t)INT_MAX;
+
+    if (rounds >= sizeof(timeplus) * CHAR_BIT || timeplus > (limit >> rounds)) {
+      timeplus = limit;
+    } else {
+      timeplus <<= rounds;
+    }
   }
 
   if (channel->maxtimeout && timeplus > channel->maxtimeout) {
